@@ -45,7 +45,7 @@ def _one(g, pid, f, r):
         impl = [w.run(it) for it in items]
         rep = model_batch([[20, items]])[0]
         bad_f, bad_c = world.oracle_forest(w), []
-        uu = [it[3] for it in items if it[0] == 1]
+        uu = [it[3] for it in items if it[0] in (1, 51)]
         bad_c = world.oracle_cache(w, uu)
         last = items[-1]
         print("    history of %d items, last: %s" % (len(items), last))
